@@ -14,6 +14,8 @@ the explicit call contract `Contract` (a structure parameter, not an axiom).
 -/
 import Proofs.ImplV2Lists
 import Proofs.ZlibLoop
+import Proofs.ImplV1Lists
+import Proofs.ImplV1Beat
 
 namespace EngineModel.Properties.C05
 open EngineModel EngineModel.Codec EngineModel.V2 EngineModel.Impl.V2
@@ -89,5 +91,50 @@ theorem C05_unz_safe (buf : Bytes) (u : Ub) : unz buf ≠ .ub u := by
     cases EngineModel.Zlib.inflate (buf.drop 4) with
     | none => simp
     | some p => simp
+
+/-! ## schema 1.x payload decoders: no undefined behaviour on any input
+
+The Model decoders of `Impl.V1` read through the same cursor monad (every read past the buffer
+is `ub oob_read`; the label `assign`, the `ptr += 3` / `ptr += 6` over the maximum entry are
+`takeN`).  Five of them equal the Spec's verdict on every byte string (`Proofs/ImplV1*.lean`), the
+beat-data decoder does so outside one explicitly characterised family; in all cases the outcome is
+a value or `invalid_argument` — in particular the `runtime_error` "internal error" branches of the
+C++ are unreachable. -/
+section V1
+open EngineModel.V1Proofs
+
+theorem C05_v1_track_safe (bs : Bytes) (u : Ub) : Impl.V1.decodeTrack bs ≠ .ub u := by
+  rw [V1Proofs.decodeTrack_eq]; exact ofOpt_never_ub _ _
+theorem C05_v1_ovw_safe (bs : Bytes) (u : Ub) : Impl.V1.decodeOvw bs ≠ .ub u := by
+  rw [V1Proofs.decodeOvw_eq]; exact ofOpt_never_ub _ _
+theorem C05_v1_hires_safe (bs : Bytes) (u : Ub) : Impl.V1.decodeHires bs ≠ .ub u := by
+  rw [V1Proofs.decodeHires_eq]; exact ofOpt_never_ub _ _
+theorem C05_v1_cues_safe (bs : Bytes) (u : Ub) : Impl.V1.decodeCues bs ≠ .ub u := by
+  rw [V1Proofs.decodeCues_eq]; exact ofOpt_never_ub _ _
+theorem C05_v1_loops_safe (bs : Bytes) (u : Ub) : Impl.V1.decodeLoops bs ≠ .ub u := by
+  rw [V1Proofs.decodeLoops_eq]; exact ofOpt_never_ub _ _
+theorem C05_v1_beat_safe (bs : Bytes) (u : Ub) : Impl.V1.decodeBeat bs ≠ .ub u :=
+  decodeBeat_safe bs u
+
+/-- The only exception class of the 1.x payload decoders is `invalid_argument`. -/
+theorem C05_v1_throw_class (bs : Bytes) (e : Exn) :
+    (Impl.V1.decodeTrack bs = .throw e ∨ Impl.V1.decodeBeat bs = .throw e ∨ Impl.V1.decodeOvw bs = .throw e ∨
+      Impl.V1.decodeHires bs = .throw e ∨ Impl.V1.decodeCues bs = .throw e ∨ Impl.V1.decodeLoops bs = .throw e) →
+    e = .invalid_argument := by
+  rw [V1Proofs.decodeTrack_eq, V1Proofs.decodeOvw_eq, V1Proofs.decodeHires_eq, V1Proofs.decodeCues_eq,
+    V1Proofs.decodeLoops_eq]
+  rintro (h | h | h | h | h | h)
+  · exact ofOpt_throw h
+  · exact decodeBeat_throw bs e h
+  · exact ofOpt_throw h
+  · exact ofOpt_throw h
+  · exact ofOpt_throw h
+  · exact ofOpt_throw h
+
+/-- The cursor monad does have `ub` outcomes (the statements are not vacuous): the unguarded loop
+body of the pre-712766a loops decoder reads the label length past the end. -/
+example : Cur.rd Codec.u8 [] = .ub .oob_read := rfl
+
+end V1
 
 end EngineModel.Properties.C05
